@@ -678,6 +678,15 @@ def as_map(v):
         return as_map(v[1])
     if k == "comp" and v[1] in ("list", "gen") and len(v[3]) == 1:
         tg, it, ifs = v[3][0]
+        if tg is not None and tg[0] == "tuple" and it[0] == "call" and it[1] == ("global", "zip") and not it[3] \
+                and len(tg[1]) == len(it[2]) and all(t is not None and t[0] == "bv" for t in tg[1]):
+            # zip of unfiltered maps over one base: a single map over that base
+            maps = [as_map(a) for a in it[2]]
+            if all(m is not None and not m[3] for m in maps) and len({m[2] for m in maps}) == 1:
+                e = ("bv", "_z", next(_fresh))
+                sub = {t: simp(subst(m[1], {m[0]: e})) for t, m in zip(tg[1], maps)}
+                return (e, simp(subst(v[2], sub)), maps[0][2], tuple(simp(subst(c, sub)) for c in ifs))
+            return None
         if tg is None or tg[0] != "bv":
             return None
         inner = as_map(it) if it[0] in ("comp", "copy") else None
@@ -757,6 +766,12 @@ def simp(v):
     if k == "item" and v[1][0] in ("tuple", "list") and isinstance(v[2], int) and not any(e[0] == "star" for e in v[1][1]):
         if -len(v[1][1]) <= v[2] < len(v[1][1]):
             return v[1][1][v[2]]
+    if k == "idx" and v[1][0] in ("comp", "copy"):
+        m = as_map(v[1])
+        if m and not m[3]:
+            return ("idx", m[2], v[2])
+    if k == "sub" and v[2][0] == "idx" and v[2][1] == v[1]:
+        return ("elem", v[1], v[2][2])
     if k == "elem":
         seq = v[1]
         if seq[0] in ("comp", "copy"):
